@@ -411,6 +411,10 @@ def kafka(ctx, thorough):
     n = 6
     fails = [[]] + [[a] for a in range(1, n + 1)] + [list(c) for c in itertools.combinations(range(1, n + 1), 2)]
     cases = [{"id": i, "n": n, "fail": f, "repeat": 40 if thorough else 12} for i, f in enumerate(fails)]
+    # a refused produce request: the library reports every message of the batch, one at a time, on its unbuffered error channel
+    # and takes no input meanwhile - while the application keeps handing messages over
+    for nn, f in ((12, list(range(3, 9))), (12, list(range(1, 13))), (8, [2, 3, 4]), (30, list(range(5, 26)))):
+        cases.append({"id": len(cases), "n": nn, "fail": f, "repeat": 10 if thorough else 4, "strict": True})
     cin, cout = os.path.join(d, "cases.ndjson"), os.path.join(d, "out.ndjson")
     vlib.write_ndjson(cin, cases)
     rc, log, to = ctx.go_run(drv, "TestVerifKafkaScripts", env={"VERIF_CASES": cin, "VERIF_OUT": cout}, timeout=900)
